@@ -53,6 +53,9 @@ class SRange:
             return self.start + (self.length() - 1) * self.step
         raise NotImplementedError
 
+    def __bool__(self):
+        return bool(self.length() > 0)
+
     def __contains__(self, x):
         if self.step > 0:
             c = _and(x >= self.start, x < self.stop)
